@@ -4,7 +4,7 @@ import z3
 from vf.pyvc.lib import REG
 from vf.pyvc import timelib  # noqa: F401
 from vf.selftest import mutation_selftest
-from contracts import versioning as K
+from contracts import versioning as K, timefmt as KT
 from props.C15 import text_to_us
 
 LEVEL = 'other'
@@ -197,6 +197,7 @@ def run(chk):
     for c in (K.fudge_contract(), K.revoke_contract(), K.get_stix_version_contract(), K.new_version_contract()):
         chk.prove(c)
         if c.ensures: chk.canary(c)
+    for k in ('str', 'datetime', 'stixdatetime'): chk.prove(KT.parse_contract(k))        # new_version normalises the current and the supplied `modified` with it
     for name, claim in K.chain_lemmas(): chk.lemma(name, claim)
     # class-table invariant the version contracts rest on (exhaustive): every registered class derives from the base class of its own spec version, and every type with
     # created/modified/revoked is versionable -- so _get_stix_version never answers None (or the other version) for a library object
